@@ -2910,7 +2910,10 @@ bn_calc_naf(bn_p bn, size_t wnd_bits, size_t naf_arr_size, int8_t *naf_arr,
 		return (EOVERFLOW);
 	mask = ((((bn_digit_t)1) << wnd_bits) - 1);
 	sign_bit = (uint8_t)(((uint8_t)1) << (wnd_bits - 1));
-	BN_RET_ON_ERR(bn_assign_init(&tm, bn));
+	/* One digit of head room: a negative item adds up to 2^(wnd_bits-1) - 1
+	 * and may carry out of a full bn. */
+	BN_RET_ON_ERR(bn_init(&tm, ((bn->digits + 1) * BN_DIGIT_BITS)));
+	BN_RET_ON_ERR(bn_assign(&tm, bn));
 
 	while (0 == bn_is_zero(&tm)) {
 		if (0 != (tm.num[0] & 1)) { /* Is odd? */
